@@ -9,7 +9,7 @@ from concurrent.futures import ThreadPoolExecutor
 
 from vlib import sexp, slevel, model, build
 
-NAMES = {1: "d1", 2: "d2", 3: "f1", 4: "f2", 5: "sp ace", 6: "ü", 7: "s1", 8: "e1", 9: "g1", 10: "n" * 120}
+NAMES = {1: "d1", 2: "d2", 3: "f1", 4: "f2", 5: "sp ace", 6: "ü", 7: "s1", 8: "e1", 9: "g1", 10: "n" * 120, 11: "private", 12: "deep"}
 GROUP = "2023.11.14"
 
 
@@ -38,6 +38,13 @@ def gen_snapshot(rng):
             ents.append(("file", [1, 2, c], rng.choice(METAS), rng.choice(CONTENTS)))
         if rng.random() < 0.4:
             ents.append(("sym", [1, 2, 7], (0o120777, 0, 0, 9), rng.choice([b"f1", b"../nowhere", b"/abs/target", b"t" * 150])))
+        if rng.random() < 0.5:
+            # a deeper directory holding a copy of a file seen earlier in the walk: its data is restored when the earlier file's entry is read,
+            # i.e. before the archive entries of its own parent directories
+            ents.append(("dir", [1, 2, 11], rng.choice(DMETAS), None))
+            ents.append(("dir", [1, 2, 11, 12], rng.choice(DMETAS), None))
+            earlier = [e for e in ents if e[0] == "file" and e[3]]
+            ents.append(("file", [1, 2, 11, 12, 3], rng.choice(METAS), rng.choice(earlier)[3] if earlier else rng.choice(CONTENTS)))
     if rng.random() < 0.3:
         ents.append(("sym", [1, 7], (0o120777, 1000, 1000, 11), b"f1"))
     return ents
@@ -281,11 +288,35 @@ def real_restore(case):
                     f.truncate(max(0, sz // 2))
         before = slevel.tree_digest(st)
         os.makedirs(sb.path("work"))
-        rc, out = sb.vsb(["restore", os.path.join(st, GROUP, bname(target)), sb.path("work", "out")])
+        tf = sb.path("restore-trace.txt")
+        prefix = ["strace", "-f", "-o", tf, "-e", "trace=mkdir,mkdirat,openat,open,creat,symlink,symlinkat"] if case.get("trace") else None
+        rc, out = sb.vsb(["restore", os.path.join(st, GROUP, bname(target)), sb.path("work", "out")], prefix=prefix)
+        discipline = creation_discipline(tf, sb.path("work", "out")) if prefix else None
         after = slevel.tree_digest(st)
         tree = slevel.scan(sb.path("work", "out")) if os.path.isdir(sb.path("work", "out")) else {}
         outside = [n for n in os.listdir(sb.path("work")) if n != "out"]
-        return {"exit": rc, "errors": slevel.errors_of(out), "tree": tree, "outside": outside, "storage_same": before == after, "out": out[-1500:]}
+        return {"exit": rc, "errors": slevel.errors_of(out), "tree": tree, "outside": outside, "storage_same": before == after, "out": out[-1500:],
+                "discipline": discipline}
+
+
+def creation_discipline(tf, out_dir):
+    """every entry the restore creates below its directory: directories with mode 0700, files with O_CREAT|O_EXCL and mode 0600 (owner-only
+    until the recorded mode is applied; never overwriting, never following a link at the last component)"""
+    import re
+    if not os.path.exists(tf):
+        return None
+    for line in open(tf, errors="replace"):
+        m = re.search(r'\b(mkdir|mkdirat)\((?:AT_FDCWD, )?"((?:[^"\\]|\\.)*)", (0[0-7]+)\)', line)
+        if m and (m.group(2) == out_dir or m.group(2).startswith(out_dir + "/")):
+            if m.group(3) != "0700":
+                return "directory %r is created with mode %s, not owner-only" % (m.group(2)[len(out_dir):] or "/", m.group(3))
+        m = re.search(r'\b(openat|open|creat)\((?:AT_FDCWD, )?"((?:[^"\\]|\\.)*)", ([A-Z_|]+)(?:, (0[0-7]+))?\)', line)
+        if m and m.group(2).startswith(out_dir + "/") and "O_CREAT" in m.group(3):
+            if "O_EXCL" not in m.group(3):
+                return "file %r is created without O_EXCL (%s): an existing file would be overwritten" % (m.group(2)[len(out_dir):], m.group(3))
+            if m.group(4) not in ("0600",):
+                return "file %r is created with mode %s, not owner-only" % (m.group(2)[len(out_dir):], m.group(4))
+    return None
 
 
 def prop_check(case, real):
@@ -293,6 +324,8 @@ def prop_check(case, real):
     g, target = case["group"], case["target"]
     if not real["storage_same"]:
         return "restore modified the backup storage"
+    if real.get("discipline"):
+        return real["discipline"]
     if real["outside"]:
         return "restore created %s outside the restore directory" % real["outside"]
     if real["exit"] == 0:
@@ -354,6 +387,9 @@ def run(ctx):
     if vres != mres[:6]:
         raise build.BuildError("extracted model and vm_compute disagree on the restore model")
     ctx.extra["vm_compute_cross_checked"] = 6
+    for i, c in enumerate(cases):
+        c["trace"] = c["label"] == "valid" or i % 3 == 0      # creation calls of these restores are traced (modes, O_EXCL)
+    ctx.count("restores.traced", sum(1 for c in cases if c["trace"]))
     with ThreadPoolExecutor(max_workers=12) as ex:
         reals = list(ex.map(real_restore, cases))
     ndiff = 0
